@@ -96,7 +96,8 @@ func VerifKillAll() error {
     },
     'lsp': {
         'pkg': 'zzverif/worlds/lsp',
-        'rewrite': [('lsp/jsonrpc2', 'sync'), ('cmd/templ/lspcmd/proxy', 'sync,os'), ('lsp/protocol', 'sync')],
+        'rewrite': [('lsp/jsonrpc2', 'sync'), ('cmd/templ/lspcmd/proxy', 'sync,os'), ('lsp/protocol', 'sync'),
+                    ('cmd/templ/imports', 'golang.org/x/sync/errgroup')],
         'closeyield': ['lsp/jsonrpc2'],
         'extra_dirs': ['simnet'],
     },
